@@ -281,10 +281,10 @@ Ltac open_nameless :=
 
 (* goal: picks k fname header trailer (unfolded); Hsw : starts_with M header = true;
    Hew : ends_with E (lower fname) = true *)
-Ltac decide_named Hsw Hew := simp_scores ltac:(sw_facts Hsw; ew_facts Hew); finish.
+Ltac decide_named Hsw Hew := simp_scores ltac:(idtac; sw_facts Hsw; ew_facts Hew); finish.
 
 (* nameless stream: the file name is [] *)
-Ltac decide_nameless Hsw := simp_scores ltac:(sw_facts Hsw); finish.
+Ltac decide_nameless Hsw := simp_scores ltac:(idtac; sw_facts Hsw); finish.
 
 (* one case per usual extension (Hin : In ext [...], Hew : ends_with ext (lower fname) = true) *)
 Ltac each_ext Hin Hew Hsw := repeat (destruct Hin as [<-|Hin]; [decide_named Hsw Hew|]); try contradiction.
